@@ -4,6 +4,7 @@ CONSTANTS
   KRead = 6
   KDispatch = 12
   SlackKiB = 1024
+  RetainSlackKiB = 96
 INIT Init
 NEXT Next
 POSTCONDITION Consumed
